@@ -32,6 +32,9 @@ type Violation struct {
 	Msg    string   `json:"msg"`
 	Step   int      `json:"step"`
 	Detail string   `json:"detail,omitempty"` // informative only (may contain text that is not replay-stable)
+	// Continue: the engine has worked around what it reports here and the run goes on (used for the
+	// one recorded finding that would otherwise end every run that meets it)
+	Continue bool `json:"-"`
 }
 
 func (v *Violation) Has(prop string) bool {
@@ -340,6 +343,10 @@ func (e *e1) run() {
 		op := &p.Ops[i]
 		v := e.doOp(op)
 		vfs.ClearFaults() // a planned fault that this step did not reach is dropped, it never leaks into the next step
+		if v != nil && v.Continue {
+			e.res.All = append(e.res.All, v)
+			v = nil
+		}
 		if v != nil {
 			e.res.All = append(e.res.All, v)
 			if p.Prop == "" || v.Has(p.Prop) || len(e.res.All) > 6 {
@@ -1026,6 +1033,17 @@ func (e *e1) doReopen(op *Op) *Violation {
 		// timestamps drawn straight from the clock (bursts) or by another bucket were never persisted by
 		// this bucket: after a restart only what it committed itself is a lower bound
 		e.maxIssued = e.maxBucketCas
+		if op.Dur%2 == 0 {
+			// the new process uses another bucket first (created, written, deleted): the clock it leaves
+			// behind is low, and must still be raised when this bucket is opened afterwards
+			if ob, err := rosmar.OpenBucket(rosmar.InMemoryURL, e.w.Name+"-first", rosmar.CreateOrOpen); err == nil {
+				if ds := ob.DefaultDataStore(); ds != nil {
+					_ = ds.SetRaw("x", 0, nil, []byte("x"))
+				}
+				_ = ob.CloseAndDelete(context.Background())
+				e.probe("restart.other-bucket-first")
+			}
+		}
 	}
 	if op.Dur%7 == 3 && !e.anyExpiry() {
 		// one statement of the open fails: the caller tries again. (Not when some document carries an
@@ -1238,7 +1256,16 @@ func (e *e1) doRecreateColl(op *Op) *Violation {
 	}
 	b := e.w.Handles[0]
 	name := collNames[op.Coll]
-	if err := b.DropDataStore(name); err != nil {
+	dropVia := b
+	if op.Dur%3 == 1 && e.w2 == nil {
+		// through a brand-new handle of the bucket that has not opened the collection
+		if fresh, err := rosmar.OpenBucket(e.w.URL, e.w.Name, rosmar.CreateOrOpen); err == nil {
+			dropVia = fresh
+			defer fresh.Close(context.Background())
+			e.probe("drop.through-fresh-handle")
+		}
+	}
+	if err := dropVia.DropDataStore(name); err != nil {
 		return e.violate([]string{"C11"}, "drop.error", "step %d: DropDataStore(%s) failed: %v", e.step, name, err)
 	}
 	synctest.Wait()
@@ -1281,6 +1308,27 @@ func (e *e1) doRecreateColl(op *Op) *Violation {
 	if err != nil {
 		return e.violate([]string{"C11"}, "recreate.error", "step %d: re-creating %s failed: %v", e.step, name, err)
 	}
+	var staleCache *Violation
+	if dropVia != b {
+		// Recorded finding KF-C11-stale-handle-cache: the handle that had the collection open keeps its
+		// cached object for it after the drop through the other handle; NamedDataStore hands that out
+		// instead of creating the collection anew. Seen here as: asked for, yet not listed.
+		relisted := map[string]bool{}
+		if l2, lerr := b.ListDataStores(); lerr == nil {
+			for _, n := range l2 {
+				relisted[n.ScopeName()+"."+n.CollectionName()] = true
+			}
+		}
+		if !relisted[name.String()] {
+			staleCache = e.violate([]string{"C11"}, "recreate.stale-handle", "step %d: %s was dropped through another handle of the bucket; NamedDataStore(%s) through the handle that had it open succeeds but the collection is not re-created (ListDataStores: %v): the handle still uses its cached object of the dropped collection", e.step, name, name, keysOfSet(relisted))
+			staleCache.Continue = true
+			// work-around, so that the run can go on: drop it once more through the stale handle
+			_ = b.DropDataStore(name)
+			if ds, err = b.NamedDataStore(name); err != nil {
+				return e.violate([]string{"C11"}, "recreate.error", "step %d: re-creating %s failed: %v", e.step, name, err)
+			}
+		}
+	}
 	// a write through the object of the DROPPED collection must not land anywhere else (it may fail)
 	_ = stale.Set("k1", 0, nil, []byte(`{"stale":true}`))
 	_, _ = stale.Add("kstale", 0, []byte(`{"stale":true}`))
@@ -1309,6 +1357,9 @@ func (e *e1) doRecreateColl(op *Op) *Violation {
 	}
 	e.res.Stats.NonTrivial = true
 	e.probe("collection.recreated")
+	if staleCache != nil {
+		return staleCache
+	}
 	return nil
 }
 
